@@ -692,18 +692,20 @@ func verifAssume(cond bool) {}
 // policy; C20: the handler table).
 //@ func NewServerConfig :: () (result)
 //@   props C03 C09 C10 C20
-//@   trusted reads the host name and the CPU count; only the freshness of its result is used
 //@   modifies nothing
 //@   ensures result != nil && fresh(result)
+//@   ensures [C03] @defaultoffer len(result.SchemeOpts) == 1 && result.SchemeOpts[0] == AuthenticationSchemeTransport && fresh(result.SchemeOpts)  ## out of the box only transport authentication is offered
+//@   ensures [C09,C10] @defaultpolicy len(result.EncryptOpts) == 2 && result.EncryptOpts[0] == SessionEncryptionNone && result.EncryptOpts[1] == SessionEncryptionTLS && fresh(result.EncryptOpts) && len(result.CompOpts) == 1 && result.CompOpts[0] == SessionCompressionNone && fresh(result.CompOpts)
+//@   ensures [C03] @callbacksset result.Authenticate != nil && result.Register != nil
 //@ func NewServerBuilder :: () (result)
 //@   props C03 C09 C10 C20
 //@   modifies nothing
 //@   ensures [C03,C09,C10,C20] @ownstate result != nil && fresh(result) && result.config != nil && fresh(result.config) && result.mux != nil && fresh(result.mux) && !sameobj(result.config, result)
 //@ func NewClientConfig :: () (result)
 //@   props C08 C09 C20
-//@   trusted reads the host name; only the freshness of its result is used
 //@   modifies nothing
 //@   ensures result != nil && fresh(result)
+//@   ensures [C08,C09] @selectorsset result.NewTransport != nil && result.CompSelector != nil && result.EncryptSelector != nil && result.Authenticator != nil
 //@ func NewClientBuilder :: () (result)
 //@   props C08 C09 C20
 //@   modifies nothing
@@ -748,27 +750,30 @@ func verifAssume(cond bool) {}
 // Adding a listener adds a listener: the negotiation policy, the scheme list and the
 // callbacks of the configuration are outside the frame of the Listen* setters (C09/C10:
 // the policy is server-wide, so a setter that widens it for one transport widens it for all).
-//@ spec fn badBoundListenerArgs(listener TransportListener, addr net.Addr) bool = uninterpreted  ## nil listener or zero address (reflect)
+//@ spec fn reflZeroOf(i interface{}) bool = uninterpreted  ## reflect's IsZero of the value an interface holds
+//@ spec fn badBoundListenerArgs(listener TransportListener, addr net.Addr) bool = listener == nil || payloadnil(listener) || addr == nil || reflZeroOf(addr)  ## nil listener or zero address
 //@ func NewBoundListener :: (listener, addr) (result)
 //@   props C09 C10
-//@   trusted reflection-based nil/zero checks around a struct literal
 //@   panics only-if badBoundListenerArgs(listener, addr)
 //@   modifies nothing
+//@   ensures [C09,C10] @bindsthese result.Listener == listener && result.Addr == addr
 //@ func NewTCPTransportListener :: (config) (result)
-//@   props C09 C10
-//@   trusted constructor of a listener object; nothing is listened on yet
+//@   props C09 C10 C16 C17
 //@   modifies nothing
-//@   ensures result != nil
+//@   ensures result != nil && istype(result, *tcpTransportListener) && result.(*tcpTransportListener) != nil && fresh(result.(*tcpTransportListener))
+//@   ensures [C09,C10,C16,C17] @ownconfig config != nil ==> result.(*tcpTransportListener).TCPConfig == old(*config)  ## the listener works on its own copy of the configuration it was given (read limit, TLS configuration)
+//@   ensures [C09,C10,C16,C17] @defaultconfig config == nil ==> result.(*tcpTransportListener).TCPConfig == defaultTCPConfig
 //@ func NewWebsocketTransportListener :: (config) (result)
-//@   props C09 C10
-//@   trusted constructor of a listener object; nothing is listened on yet
+//@   props C09 C10 C17
 //@   modifies nothing
-//@   ensures result != nil
+//@   ensures result != nil && istype(result, *websocketTransportListener) && result.(*websocketTransportListener) != nil && fresh(result.(*websocketTransportListener))
+//@   ensures [C09,C10,C17] @ownconfig config != nil ==> result.(*websocketTransportListener).WebsocketConfig == old(*config)
+//@   ensures [C09,C10,C17] @defaultconfig config == nil ==> result.(*websocketTransportListener).WebsocketConfig == WebsocketConfig{}
 //@ func NewInProcessTransportListener :: (addr) (result)
-//@   props C09 C10
-//@   trusted constructor of a listener object; nothing is listened on yet
+//@   props C09 C10 C17
 //@   modifies nothing
-//@   ensures result != nil
+//@   ensures result != nil && istype(result, *inProcessTransportListener) && result.(*inProcessTransportListener) != nil && fresh(result.(*inProcessTransportListener))
+//@   ensures [C09,C10,C17] @boundto result.(*inProcessTransportListener).addr == addr && result.(*inProcessTransportListener).transports != nil && result.(*inProcessTransportListener).done != nil && chancap(result.(*inProcessTransportListener).done) >= 1
 //@ func (*ServerBuilder).ListenTCP :: (b, addr, config) (result)
 //@   props C09 C10
 //@   requires b != nil
